@@ -35,7 +35,7 @@ def harness_fault(e):
 def write_replay(prop, name, doc):
     d = os.path.join(os.environ.get("VERIF_EVIDENCE_DIR") or VERIF, "replays", prop)
     os.makedirs(d, exist_ok=True)
-    p = os.path.join(d, name)
+    p = os.path.join(d, "".join(c if (c.isalnum() or c in "._-") else "_" for c in name))
     with open(p, "w") as f:
         json.dump(doc, f, indent=1, default=str)
     return p
